@@ -901,7 +901,10 @@ def c07_hexital_case(rng, idx, params):
         # members on collapsing timeframes of their own (one-minute feed): the Hexital must not redo their history on an append
         for m in rng.sample(members, rng.randint(1, len(members))):
             if m["kind"] != "AMORPH" and not str(m.get("input", "close")).count("."):
-                m["tf"] = rng.choice(["T2", "T3", "T5"])
+                tf = rng.choice(["T2", "T3", "T5"])
+                biggest = max([v for kk, v in m.items() if kk in ("period", "fast", "slow", "signal", "smooth", "smoothk") and isinstance(v, int)] or [2])
+                if (6 * biggest + 12) * int(tf[1:]) <= min(params.get("lengths", [150, 600])):   # "after warm-up": also at the SHORT history, in buckets
+                    m["tf"] = tf
     lengths = params.get("lengths", [150, 600])
     stream, meta = gen.gen_stream(rng, max(lengths) + chunk, price_style=rng.choice(["walk", "rising", "falling", "jumpy"]), ts_style="regular", step=60)
     if tie_move:
